@@ -8,7 +8,7 @@ use sophia_isomorphism::isomorphic_datasets;
 
 type T = SimpleTerm<'static>;
 #[derive(Clone, Copy, Debug, PartialEq)]
-enum A { Ia, Ic, Bx, By, L, Q1, Q2 }
+enum A { Ia, Ic, Bx, By, L, Q1, Q2, Q3 }
 
 fn iri(s: &str) -> T { SimpleTerm::Iri(IriRef::new_unchecked(s.to_string().into())) }
 fn bn(s: &str) -> T { SimpleTerm::BlankNode(BnodeId::new_unchecked(s.to_string().into())) }
@@ -18,6 +18,8 @@ fn mk(a: A, x: &str, y: &str, ground: &str) -> T {
         A::L => SimpleTerm::LiteralDatatype("l".into(), IriRef::new_unchecked("x:d".into())),
         A::Q1 => SimpleTerm::Triple(Box::new([bn(x), iri("x:p"), iri(ground)])),
         A::Q2 => SimpleTerm::Triple(Box::new([bn(y), iri("x:p"), bn(x)])),
+        // generalized RDF: a blank node in predicate position of a quoted triple
+        A::Q3 => SimpleTerm::Triple(Box::new([iri("x:c"), bn(x), iri("x:c")])),
     }
 }
 type Qd = (A, A, u8); // subject, object, graph (0 default, 1 iri a, 2 blank x)
@@ -33,8 +35,8 @@ fn fail(what: &str, qs: &[Qd], detail: String) -> ! {
 }
 
 fn main() {
-    let subj = [A::Ia, A::Bx, A::By, A::Q1, A::Q2];
-    let obj = [A::Ia, A::Ic, A::Bx, A::By, A::L, A::Q1, A::Q2];
+    let subj = [A::Ia, A::Bx, A::By, A::Q1, A::Q2, A::Q3];
+    let obj = [A::Ia, A::Ic, A::Bx, A::By, A::L, A::Q1, A::Q2, A::Q3];
     let mut quads: Vec<Qd> = vec![];
     for s in subj { for o in obj { for g in 0..3u8 { quads.push((s, o, g)); } } }
     let mut n = 0u64;
@@ -43,7 +45,7 @@ fn main() {
     for qs in &datasets {
         let base = build(qs, "x", "y", "x:a", false);
         if base.len() == 2 && base[0] == base[1] { continue; }
-        let uses = |a: A| qs.iter().any(|(s, o, g)| *s == a || *o == a || (a == A::Bx && (*g == 2 || *s == A::Q1 || *o == A::Q1 || *s == A::Q2 || *o == A::Q2)) || (a == A::By && (*s == A::Q2 || *o == A::Q2)));
+        let uses = |a: A| qs.iter().any(|(s, o, g)| *s == a || *o == a || (a == A::Bx && (*g == 2 || *s == A::Q1 || *o == A::Q1 || *s == A::Q2 || *o == A::Q2 || *s == A::Q3 || *o == A::Q3)) || (a == A::By && (*s == A::Q2 || *o == A::Q2)));
         for (x2, y2) in [("u", "v"), ("y", "x"), ("x", "zz")] {
             for rev in [false, true] {
                 n += 1;
